@@ -714,6 +714,10 @@ class AxisOnDisk(GetSetDelAttrMixin, NetCDFVariable, AbstractAxis):
         else:
             return np.dtype('i')
 
+    def is_numeric(self):
+        # the netCDF4 variable of a string axis has dtype `str` (no .kind): go through np.dtype
+        return self.dtype.kind in ('i', 'u', 'f')
+
 class AxesOnDisk(AbstractAxes):
     def __init__(self, ds, dims, **kwargs):
         self._ds = ds
